@@ -23,6 +23,7 @@ FUNCTIONS = [
     dict(file=_O + 'arithmetic/mod.rs', path='fn checked_integer_result'),
     dict(file=_O + 'comparison/mod.rs', path='fn compare'),
     dict(file='crates/vibesql-executor/src/evaluator/expressions/operators.rs', path='fn eval_unary_op'),
+    dict(file='crates/vibesql-executor/src/evaluator/core.rs', path='fn eval_between_static'),
 ]
 H = {}
 _3VL = ['C01', 'C06']
@@ -52,6 +53,8 @@ H['e_cmp_int_double_consistent'] = dict(fn='eval_binary_op', clause='trichotomy_
 H['e_unary_not_kleene_and_numeric'] = dict(fn='eval_unary_op', clause='not_is_kleene_and_true_iff_falsy_on_numbers', props=['C06', 'C01'])
 H['e_unary_minus_exact_or_error'] = dict(fn='eval_unary_op', clause='minus_exact_or_error', props=['C24', 'C01'])
 H['e_unary_plus_identity'] = dict(fn='eval_unary_op', clause='plus_identity', props=['C01'])
+for _h in ['vvv', 'nvv', 'vnv', 'vvn', 'vnn', 'nnn']:
+    H['e_between_' + _h] = dict(fn='eval_between_static', clause='between_is_ge_and_le_in_3vl_not_symmetric[null pattern %s]' % _h, props=['C01', 'C06'])
 H['e_canary_must_fail'] = dict(fn='canary', clause='must_fail', canary=True)
 HARNESSES = H
 TRUSTED = [
